@@ -24,16 +24,16 @@ import (
 )
 
 type runner struct {
-	w     *world
-	vs    *vectorSet
-	seed  int64
-	live  bool // e2e: inputs travel over the switch, the networks run their own loops
-	emit  func(ev map[string]any)
-	begin func(tag string)
+	w         *world
+	vs        *vectorSet
+	seed      int64
+	live      bool // e2e: inputs travel over the switch, the networks run their own loops
+	emit      func(ev map[string]any)
+	begin     func(tag string)
 	beginWith func(tag string, info map[string]any)
-	bg    []func() // slow calls running in the background: collectors
-	aw    map[string]*awaited
-	nconn int
+	bg        []func() // slow calls running in the background: collectors
+	aw        map[string]*awaited
+	nconn     int
 }
 
 var summariesKey = []byte("historical_summaries")
@@ -740,6 +740,9 @@ func (x *runner) eval(c *kase, i, fill, from int) {
 			content = x.contentFor(rng, c, fill, vec)
 			if (c.Cc == "fldbnd" || c.Cc == "fldfar") && c.Kc == "exact" {
 				key, content = x.fieldCase(rng, c, key, content)
+			}
+			if c.Cc == "pathcut" && c.Kc == "exact" && c.Net == "state" {
+				key = pathCut(rng, c, key)
 			}
 		}
 		pre := x.pre(rng, c, key, vec)
